@@ -185,6 +185,8 @@ class Report:
         obs = [o for o in self.obligations if o.kind != 'vacuity']
         unb = [o for o in obs if not o.bounded]
         bnd = [o for o in obs if o.bounded]
+        # level proof: only unbounded obligations count; any other level (bounded stand-in): all of them
+        counted = unb if (self.level == 'proof' and unb) else obs
         by_backend = {}
         for o in self.obligations:
             b = by_backend.setdefault(o.backend, {'obligations': 0, 'discharged': 0, 'seconds': 0.0})
@@ -192,13 +194,16 @@ class Report:
             b['discharged'] += 1 if o.status == 'discharged' else 0
             b['seconds'] = round(b['seconds'] + o.seconds, 3)
         cov = {
-            'obligations': len(unb) if unb else len(obs),
-            'discharged': len([o for o in (unb if unb else obs) if o.status == 'discharged']),
+            'obligations': len(counted),
+            'discharged': len([o for o in counted if o.status == 'discharged']),
             'checker_cmd': ' ; '.join(self.checker_cmds) or 'n/a',
             'trusted_base': self.trusted,
-            'explanation': ('obligations/discharged count the unbounded (proof) obligations only; '
-                            'bounded stand-ins are listed under bounded_obligations with their bound and are '
-                            'not counted as proved. ' + ' '.join(self.notes)),
+            'explanation': (('obligations/discharged count the unbounded (proof) obligations only; '
+                             'bounded stand-ins are listed under bounded_obligations with their bound and are '
+                             'not counted as proved. ') if self.level == 'proof' else
+                            ('BOUNDED contract checking, not a proof: obligations/discharged count every obligation; '
+                             'bounded_obligations of them hold only up to the bound stated in obligation_table[].bounded. '))
+                           + ' '.join(self.notes),
             'bounded_obligations': len(bnd),
             'bounded_discharged': len([o for o in bnd if o.status == 'discharged']),
             'known_findings': [{'obligation': o.id, 'what': k['what']} for o, k in known_hits],
